@@ -459,6 +459,30 @@ Proof. intros fl v rest H. unfold run. rewrite H. reflexivity. Qed.
 
 End Model.
 
+(* the two directions packaged as the property statements *)
+Theorem touched_with_flags :
+  forall (wm : wmode) (fmt : list token -> bytes) fl v,
+  (forall o, In o (fst (new_package wm fmt fl v)) <->
+     exists f sg, In (f, sg) (fst (names_pass fl v)) /\ sg <> [] /\
+                  o = OWrite wm (f_path f) (fmt (rename sg (f_toks f)))) /\
+  (forall f sg, In (f, sg) (fst (names_pass fl v)) ->
+     In f (p_files v) /\ Forall (renamed_entry fl (f_calls f)) sg).
+Proof.
+  intros wm fmt fl v. split; [exact (new_package_writes wm fmt fl v)|].
+  intros f sg. exact (names_loop_sound fl _ _ _ _ _ f sg).
+Qed.
+
+Theorem run_touched_with_flags :
+  forall (wm : wmode) (fmt : list token -> bytes) (gen : list tmap -> bytes) fl views,
+  (forall o, In o (fst (run wm fmt gen fl views)) -> allowed_op wm fmt fl views o) /\
+  (forall v rest f sg, views = v :: rest -> p_loads v = true ->
+     In (f, sg) (fst (names_pass fl v)) -> sg <> [] ->
+     In (OWrite wm (f_path f) (fmt (rename sg (f_toks f)))) (fst (run wm fmt gen fl views))).
+Proof.
+  intros wm fmt gen fl views. split; [exact (run_allowed wm fmt gen fl views)|].
+  intros v rest f sg E. subst. exact (run_first_pass_writes wm fmt gen fl v rest f sg).
+Qed.
+
 (* ---- contents after one pass of the repaired code ---- *)
 
 Section Contents.
